@@ -1414,7 +1414,7 @@ def check_C43(rep):
                "if it is a first word; not-valid words are ignored everywhere")
 
     for sub, label in ([({"SetWords": "TinyWords", "FirstCtrl": 15, "HasCfg": "TRUE", "DetN": 2, "MaxSets": 4, "MaxGaps": 1, "MaxStray": 1}, "2-word sets of 4 kinds, x2"),
-                        ({"SetWords": "TS2Words", "FirstCtrl": 15, "HasCfg": "TRUE", "DetN": 2, "MaxSets": 3, "MaxGaps": 1, "MaxStray": 1}, "TS2-shaped sets of 4 kinds, x2")]
+                        ({"SetWords": "TS2Words", "FirstCtrl": 15, "HasCfg": "TRUE", "DetN": 2, "MaxSets": 3, "MaxGaps": 1, "MaxStray": 0}, "TS2-shaped sets of 4 kinds, x2")]
                        + ([] if quick else [({"SetWords": "TinyWords", "FirstCtrl": 15, "HasCfg": "TRUE", "DetN": 2, "MaxSets": 5, "MaxGaps": 1, "MaxStray": 1}, "2-word sets, 5 sets"),
                                             ({"SetWords": "TinyWords", "FirstCtrl": 15, "HasCfg": "TRUE", "DetN": 3, "MaxSets": 5, "MaxGaps": 2, "MaxStray": 0}, "2-word sets x3")])):
         _mc(rep, "MCTsDetector", tlc.render_cfg(_cfg("MCTsDetector.cfg.tmpl"), sub), "MCTsDetector (%s)" % label, sub,
